@@ -441,6 +441,8 @@ def run(chk):
         mod = chk.repo.mod(mn)
         for scope, nm in unresolved_globals(mod, chk.repo):
             chk.note(f"{mod.rel}: name {nm!r} loaded in {scope} is bound nowhere (dead helper; not on the CSV path)")
+    from .. import args as _args
+    chk.guard(_args.apply, chk, "C19-R90", {'databoxes', 'dataslates'}, 1)
     chk.assumptions = [
         "value-level losslessness (float formatting by csv.writer, parsing by numpy.genfromtxt) is numerical: NOT decided",
         "series names do not start with '__' and are not '*' or empty",
